@@ -2,7 +2,7 @@
 Container part: drv_heap / drv_ds with the allocation wrapper, validated against the same abstract trace
 specifications as C12/C13 (their *Fail actions: failure value only if the allocator refused, state UNCHANGED,
 cannot-fail operations succeed, nothing leaked)."""
-import os, random
+import os, random, re
 import vlib
 from checks import c04, c06, c07, c08, c12, c13, evgen
 
@@ -56,6 +56,10 @@ def known_http(prog, ex, line):
         if ("heap-use-after-free" in rep and "in network_connect_cancel" in rep and "in http_request_cancel" in rep and "in tryconnect" in rep
                 and "\nfail " in prog and "\ncancel " in prog):
             return "F11 HTTP request cancelled after a fatal allocation failure inside network_connect's tryconnect touches the freed connection cookie"
+        # F12: the request itself was freed by http.c's die() after a refused allocation in one of its callbacks
+        if ("heap-use-after-free" in rep and re.search(r"#0 \S+ in http_request_cancel \S+http\.c:\d+\s*\n\s*#1 \S+ in run_child ", rep)
+                and re.search(r"in die \S+http\.c", rep) and "\nfail " in prog and "\ncancel " in prog):
+            return "F12 HTTP request cancelled after http.c's die() freed it (fatal allocation failure in a callback, no callback to the owner)"
         return None
     if not (0 < line <= len(ex)) or ex[line - 1].get("e") != "exit" or ex[line - 1].get("live") != 2:
         return None
